@@ -309,6 +309,40 @@ _site_contract(_AF + '_split_kwds', {'self': make_aligned, 'tlist': make_group},
                loops={'0': {'bind': bind_elem_or_none('tlist', 'tidx', 'token')}}, raises=['IndexError', 'ValueError'])
 _site_contract(_AF + '_process_parenthesis', {'self': make_aligned, 'tlist': make_group}, raises=['IndexError', 'ValueError'])
 
+# --------------------------------------------------------------------------------- output filters: total (C07)
+
+def make_output_filter(clsname):
+    def mk(ex, st):
+        from sqlparse.filters import output as fo
+        c = fresh('out_count', z3.IntSort())
+        st.assume(c >= 1)
+        return ex.new_obj(st, clsname, {'__class__': getattr(fo, clsname), 'count': SInt(c),
+                                        'varname': SStr(z3.String('out_varname'))})
+    return mk
+
+
+def make_leaf_stream(ex, st):
+    """the flattened statement: a list of leaf tokens of unknown length (values non-empty: C01)"""
+    from contracts.sql import make_group
+    g = make_group(ex, st, 'flatstmt')
+    return st.objs[g.oid]['tokens']
+
+
+OUTPUT_FILTER_CASES = []
+for _cls in ('OutputPythonFilter', 'OutputPHPFilter'):
+    _q = 'sqlparse.filters.output.%s._process' % _cls
+    _ns = {'__doc__': 'C07 "a result or SQLParseError, nothing else": the generator runs to its end on every token stream, '
+                      'whatever the texts of the tokens (in particular the text behind a line break is taken from a split '
+                      'that has two parts on every path that reads the second one)',
+           'exec_class': HeapExec, 'params': {'self': make_output_filter(_cls), 'stream': make_leaf_stream, 'varname': 'str',
+                                               'has_nl': 'bool'},
+           # (every item handed on is a token made by this call: the statement's own tokens are not passed through)
+           'yield_asserts': ['FRESH(item)'],
+           'loops': {'0': {}}, 'requires': [], 'ensures': [], 'raises': [], 'serves': ['C07']}
+    REG.add(_q, 'total', type('output_total_' + _cls, (), _ns))
+    OUTPUT_FILTER_CASES.append((_q, 'total'))
+
+
 # C08: what strip_comments may do to the tree
 COMMENT_SITES = {
     'remove': ['elem.ttype in T.Comment or isinstance(elem, sql.Comment)',
